@@ -45,6 +45,16 @@ def memo_trace(res, tier, n, cfgs, seed_mul=15485863):
     res.add("evaluations", n * len(cfgs))
 
 
+def relation_key(name, grp):
+    """a broken order relation is keyed by what the program needs for it: rules sharing a name"""
+    base = [g for g in grp if g["var"] == "B"]
+    if base:
+        names = [r["n"] for r in base[0]["prog"]["rules"]]
+        if len(set(names)) < len(names):
+            return "relation:%s:same-named-rules" % name
+    return "relation:" + name
+
+
 def run(tier):
     res = Result("C04", tier, "model_checking")
     res.assumptions = ["orderings that raise an evaluation error are excluded (the property's proviso)",
@@ -58,8 +68,8 @@ def run(tier):
     res.add("states", r["distinct"])
     res.add("transitions", r["states"])
     res.cov["machine_states"] = r["distinct"]
-    # 2. the combination rules are symmetric: all permutations / repetitions (lines <= 4, alternatives <= 3)
-    r = tlc("MC_Cnf", cfg="MC_Cnf_perm", workers=8, timeout=1800, tag="cnfperm", heap="8g", env={"CTXS": "1,1"})
+    # 2. the combination rules are symmetric: all permutations / repetitions (lines <= 3 quick / 4 thorough, alternatives <= 3)
+    r = tlc("MC_Cnf", cfg="MC_Cnf_perm3" if tier == "quick" else "MC_Cnf_perm", workers=8, timeout=1800, tag="cnfperm", heap="8g", env={"CTXS": "1,1"})
     if not r["ok"]:
         log(r["out"][-3000:])
         raise ToolError("MC_Cnf: PermLaw fails on the specification")
@@ -68,10 +78,10 @@ def run(tier):
     res.cov["permutation_law_states"] = r["distinct"]
     # 3. impl -> spec: permutation groups
     n = 400 if tier == "quick" else 6000
-    core.record_and_judge(res, tier, n, ["core", "full"], c01.classify, spec="TraceGroup", recorder="record-perm",
-                          expect_relations=True)
+    core.record_and_judge(res, tier, n, ["core", "full", "dups"], c01.classify, spec="TraceGroup", recorder="record-perm",
+                          expect_relations=True, relation_key=relation_key)
     # 4. impl -> spec: memoisation histories
-    memo_trace(res, tier, 1500 if tier == "quick" else 20000, ["core", "full"])
+    memo_trace(res, tier, 1500 if tier == "quick" else 20000, ["core", "full", "dups"])
     res.cov["rule"] = ("GuardMachine model-checked for 3 rules (all reference graphs, statuses, schedules); PermLaw over all "
                        "CNF shapes <= 4x3; R: random programs with lines/alternatives/rules permuted, clauses repeated, rules "
                        "duplicated under a new name (TraceGroup); hook-event streams of random programs validated against "
